@@ -12,6 +12,12 @@ import (
 )
 
 func main() {
+	if k := os.Getenv("VERIF_CROSS"); k != "" && k != "off" {
+		engine.CrossKind = k
+		if n, err := strconv.Atoi(os.Getenv("VERIF_CROSS_EVERY")); err == nil {
+			engine.CrossEvery = n
+		}
+	}
 	tags := flag.String("tags", "avfs_setostype", "build tags")
 	workers := flag.Int("w", 16, "workers")
 	verbose := flag.Bool("v", false, "print every path")
@@ -67,4 +73,5 @@ func main() {
 	ex.Run([]engine.Case{c})
 	fmt.Printf("paths=%d kinds=%v obligations=%d discharged=%d\nviolations=%v\nqueries=%d unknown=%d errors=%d solver=%.2fs steps=%d wall=%.2fs\n",
 		ex.Stats.Paths, kinds, obl, dis, viol, ex.Stats.Queries, ex.Stats.Unknown, ex.Stats.SolverErrors, ex.Stats.SolverTime.Seconds(), ex.Stats.Steps, ex.Stats.Wall.Seconds())
+	fmt.Printf("cross: agree=%d noverdict=%d differ=%d time=%.2fs\n", ex.Stats.CrossChecked, ex.Stats.CrossUnknown, ex.Stats.CrossDiffer, ex.Stats.CrossTime.Seconds())
 }
